@@ -939,6 +939,61 @@ theorem markov1_counts_exact_ieee (ρ : Rounding) (K c0 : Nat) (rest : List Nat)
       if x < K ∧ y < K then some (CNum.ofNat ((circPairs (c0 :: rest)).count (x, y))) else none :=
   markov1Counts_ieee ρ K c0 rest hlen x y
 
+/-- i.i.d. generation from a probability-like vector in ROUNDED arithmetic (at most `2^32` entries, each `+0.0` or in `(0,1]`, one
+    positive; the computed sum need not be `1.0`): `esl_rsq_IID / fIID / xIID / xfIID` return, and emit only symbols of non-zero probability -/
+theorem iid_complete_ieee (ρ : Rounding) (p : List (Ieee ρ)) (hlen : p.length ≤ 4294967296) (hent : ∀ q ∈ p, Sm 1 q.1)
+    (hpos : ∃ q ∈ p, Pos q.1) (L : Nat) (r : Rng) :
+    ∃ out, (iidLoop p L r #[]).1 = some out ∧ out.size = L ∧ ∀ k ∈ out, ∃ q, p[k]? = some q ∧ ¬ IsZero ρ q := by
+  obtain ⟨out, h⟩ := iidLoop_total_ieee ρ p hlen hent hpos L r #[]
+  exact ⟨out, h, iid_support_ieee_negzero ρ p L r out h⟩
+
+/-- hypotheses of `iid_complete_ieee` on a concrete vector under a lossy rounding: `[1/3, +0.0, 1/3]` -/
+example : Sm 1 (CNum.div (CNum.ofNat 1) (CNum.ofNat 3) : Ieee gridRounding).1 ∧ Pos (CNum.div (CNum.ofNat 1) (CNum.ofNat 3) : Ieee gridRounding).1 ∧
+    Sm 1 (CNum.zero : Ieee gridRounding).1 :=
+  ⟨(ratio_ieee gridRounding 1 3 (by norm_num) (by norm_num) (by norm_num)).1,
+   (ratio_ieee gridRounding 1 3 (by norm_num) (by norm_num) (by norm_num)).2 (by norm_num), Or.inl rfl⟩
+
+/-- **order-1 Markov resampling, complete statement in rounded arithmetic**: for every alphabetic text of at most `2^32` characters,
+    every generator state and every monotone rounding, `esl_rsq_CMarkov1` returns `eslOK`, and the output is the input itself
+    (length `≤ 2`) or has the input's length, starts with a residue of the input and contains only adjacent pairs of the input read circularly -/
+theorem cMarkov1_complete_ieee (ρ : Rounding) (s : Bytes) (hs : s.size ≤ 4294967296) (hal : ¬ (s.any (fun c => !isAlpha c) = true)) (r : Rng) :
+    ∃ out, (cMarkov1 (Ieee ρ) s r).1 = .ok out ∧
+      ((s.size ≤ 2 ∧ out = s) ∨
+       ∃ codes, out = ofCodesText codes ∧ codes.size = s.size ∧ (∀ pr ∈ adjPairs codes.toList, pr ∈ circPairs (textCodes s)) ∧
+         ∃ x, codes.toList.head? = some x ∧ x ∈ textCodes s) := by
+  rcases cMarkov1_einval_or_ok_ieee ρ s hs r with ⟨_, h⟩ | ⟨_, out, h⟩
+  · exact absurd h hal
+  · exact ⟨out, h, cMarkov1_spec s r out h⟩
+
+theorem xMarkov1_complete_ieee (ρ : Rounding) (dsq : Bytes) (L K : Nat) (hL : L + 2 ≤ dsq.size) (hLb : L ≤ 4294967296) (hKb : K ≤ 4294967296)
+    (hval : ¬ ((digitalCodes dsq L).any (fun c => c ≥ K) = true)) (r : Rng) :
+    ∃ out, (xMarkov1 (Ieee ρ) dsq L K r).1 = .ok out ∧
+      ((L ≤ 2 ∧ out = dsq) ∨
+       ∃ codes, out = ofCodesDigital codes ∧ codes.size = L ∧ (∀ pr ∈ adjPairs codes.toList, pr ∈ circPairs (digitalCodes dsq L)) ∧
+         ∃ x, codes.toList.head? = some x ∧ x ∈ digitalCodes dsq L) := by
+  rcases xMarkov1_einval_or_ok_ieee ρ dsq L K hL hLb hKb r with ⟨_, h⟩ | ⟨_, out, h⟩
+  · exact absurd h hval
+  · exact ⟨out, h, xMarkov1_spec dsq L K hL r out h⟩
+
+/-- order-0, same form: `eslOK`, same length, only residues of the input -/
+theorem cMarkov0_complete_ieee (ρ : Rounding) (s : Bytes) (hs : s.size ≤ 4294967296) (hal : ¬ (s.any (fun c => !isAlpha c) = true)) (r : Rng) :
+    ∃ out, (cMarkov0 (Ieee ρ) s r).1 = .ok out ∧
+      ∃ codes, out = ofCodesText codes ∧ codes.size = s.size ∧ ∀ k ∈ codes, k ∈ textCodes s := by
+  rcases cMarkov0_einval_or_ok_ieee ρ s hs r with ⟨_, h⟩ | ⟨_, out, h⟩
+  · exact absurd h hal
+  · exact ⟨out, h, cMarkov0_spec s r out h⟩
+
+theorem xMarkov0_complete_ieee (ρ : Rounding) (dsq : Bytes) (L K : Nat) (hL : L + 2 ≤ dsq.size) (hLb : L ≤ 4294967296) (hKb : K ≤ 4294967296)
+    (hval : ¬ ((digitalCodes dsq L).any (fun c => c ≥ K) = true)) (r : Rng) :
+    ∃ out, (xMarkov0 (Ieee ρ) dsq L K r).1 = .ok out ∧
+      ∃ codes, out = ofCodesDigital codes ∧ codes.size = L ∧ ∀ k ∈ codes, k ∈ digitalCodes dsq L := by
+  rcases xMarkov0_einval_or_ok_ieee ρ dsq L K hLb hKb r with ⟨_, h⟩ | ⟨_, out, h⟩
+  · exact absurd h hval
+  · exact ⟨out, h, xMarkov0_spec dsq L K hL r out h⟩
+
+/-- non-vacuity: an alphabetic text, a valid digital sequence -/
+example : ¬ ((#[65, 66, 67, 65] : Bytes).any (fun c => !isAlpha c) = true) := by decide +kernel
+example : ¬ ((digitalCodes (#[255, 0, 1, 2, 255] : Bytes) 3).any (fun c => c ≥ 4) = true) := by decide +kernel
 /-- non-vacuity of the size hypotheses -/
 example : (#[65, 66, 65] : Bytes).size ≤ 4294967296 := by decide
 
